@@ -254,7 +254,7 @@ LEGS = {
     ],
     "C07": lambda q, seed: [
         ("G-nullable", dict(CFGS="U_C01_pairs", MAXLEN=3, OPS='{"next", "peek", "setoffset"}', MAXDEPTH=4, DRAIN="FALSE",
-                            PEEKNS="{2}", MOD=800 if q else 40, SEED=seed)),
+                            PEEKNS="{2}", MOD=1600 if q else 160, SEED=seed)),
     ],
     "C09": lambda q, seed: [
         ("G-pos", dict(CFGS="U_C09", SYMS="Syms_C09", MAXLEN=4, OPS='{"nextpos", "setoffset"}', MAXDEPTH=4 if q else 5,
@@ -264,11 +264,11 @@ LEGS = {
     ],
     "C10": lambda q, seed: [
         ("G-offsets", dict(CFGS="U_C10", SYMS="Syms_C06", MAXLEN=3, OPS='{"next", "peek", "advance", "setoffset", "setmode"}',
-                           MAXDEPTH=4 if q else 5, DRAIN="FALSE", PEEKNS="{1, 2}", MOD=24 if q else 6, SEED=seed)),
+                           MAXDEPTH=4 if q else 5, DRAIN="FALSE", PEEKNS="{1, 2}", MOD=24 if q else 48, SEED=seed)),
     ],
     "C11": lambda q, seed: [
         ("G-peek", dict(CFGS="U_C10", SYMS="Syms_C06", MAXLEN=3, OPS='{"next", "peek", "setmode"}', MAXDEPTH=4 if q else 5,
-                        DRAIN="FALSE", PEEKNS="{0, 1, 2, 3, 1000000}", MOD=8 if q else 2, SEED=seed)),
+                        DRAIN="FALSE", PEEKNS="{0, 1, 2, 3, 1000000}", MOD=8 if q else 8, SEED=seed)),
         ("G-peek-graphs", dict(CFGS="U_C06", SYMS="Syms_C06", MAXLEN=3, OPS='{"next", "peek"}', MAXDEPTH=3, DRAIN="FALSE",
                                PEEKNS="{1, 3}", MOD=60 if q else 6, SEED=seed)),
     ],
@@ -276,7 +276,7 @@ LEGS = {
         ("G-iters", dict(CFGS="U_C10", SYMS="Syms_C06", MAXLEN=2, OPS=HIST, MAXDEPTH=4 if q else 5, DRAIN="FALSE", NITERS=3,
                          PEEKNS="{1}", SECOND="{2, 7}", MOD=3 if q else 3, SEED=seed)),
         ("G-twin-scanners", dict(CFGS="U_C10", SYMS="Syms_C06", MAXLEN=2, OPS='{"next", "peek", "setmode", "scsetmode", "newiter"}', MAXDEPTH=4 if q else 5,
-                                 DRAIN="FALSE", NITERS=2, PEEKNS="{1}", SECOND="{7}", MOD=5 if q else 2, SEED=seed, TWIN="TRUE")),
+                                 DRAIN="FALSE", NITERS=2, PEEKNS="{1}", SECOND="{7}", MOD=5 if q else 10, SEED=seed, TWIN="TRUE")),
     ],
 }
 
@@ -534,7 +534,7 @@ def check_C14(K, prop, tier, seed, t0):
     apa_pool = ThreadPoolExecutor(max_workers=1)
     apa_fut = apa_pool.submit(K.run_apalache_inductive, prop, "I-CacheInd", "CacheInd", "ConstInit", "Init", "IndInv")
     # T: sampled real schedules
-    n = 120 if q else 2500
+    n = 120 if q else 600
     rec = os.path.join(vroot, "threads")
     p = subprocess.run([K.HARNESS, "threads", str(n), str(seed), rec, "16" if not q else "8"], env=K.base_env(), stdout=subprocess.PIPE, stderr=subprocess.PIPE, text=True, timeout=3000)
     if p.returncode != 0:
@@ -603,7 +603,7 @@ def check_C17(K, prop, tier, seed, t0):
     q = tier == "quick"
     mreps = [K.run_model_leg(prop, nm, mod, cfg, params, expect_violation=neg, workers=4)
              for (nm, mod, cfg, params, neg) in MODEL_LEGS["C17"](q)]
-    # the closed form RegexSem uses for a{n} over a leaf is the iteration (evaluated on all small cases)
+    # the chunked count RegexSem uses for a{m,n} over a leaf is the iteration (evaluated on all small cases)
     mreps.append(K.run_model_leg(prop, "L-RepLeaf", "Lemma_RepLeaf", "INIT LInit\nNEXT LNext\nCHECK_DEADLOCK FALSE\n", {}, workers=1))
     rec = os.path.join(K.WORK, f"{prop}-{os.getpid()}", "large")
     p = subprocess.run([K.HARNESS, "large", rec, "keywords" if q else "both"], env=K.base_env(), stdout=subprocess.PIPE, stderr=subprocess.PIPE, text=True, timeout=3 * 3600)
